@@ -403,8 +403,9 @@ unsigned int sleep(unsigned int s) {
 int nanosleep(const struct timespec* req, struct timespec* rem) {
   typedef int (*real_t)(const struct timespec*, struct timespec*); static real_t real = nullptr; if (!real) real = (real_t)real_sym("nanosleep");
   if (!live()) return real(req, rem);
+  int64_t ns = ts_to_ns(req);  // req and rem may alias (libstdc++ sleep_for)
   if (rem) { rem->tv_sec = 0; rem->tv_nsec = 0; }
-  return sim_sleep(ts_to_ns(req));
+  return sim_sleep(ns);
 }
 int clock_nanosleep(clockid_t id, int flags, const struct timespec* req, struct timespec* rem) {
   typedef int (*real_t)(clockid_t, int, const struct timespec*, struct timespec*); static real_t real = nullptr; if (!real) real = (real_t)real_sym("clock_nanosleep");
